@@ -80,22 +80,23 @@ Started ==
 ----------------------------------------------------------------------------
 (* Add *)
 
-AddCall(a, t, rdy) ==
+AddCall(a, t) ==
   /\ ad[a].pc = "idle" /\ up \in {"up", "closing", "closed"} /\ nadd < MaxAdd
-  /\ ad' = [ad EXCEPT ![a] = IF up = "up" THEN [pc |-> "store", t |-> t, ready |-> rdy, res |-> None]
-                                          ELSE [pc |-> "ret", t |-> t, ready |-> rdy, res |-> "closed"]]
+  /\ ad' = [ad EXCEPT ![a] = IF up = "up" THEN [pc |-> "store", t |-> t, ready |-> TRUE, res |-> None]
+                                          ELSE [pc |-> "ret", t |-> t, ready |-> TRUE, res |-> "closed"]]
   /\ nadd' = nadd + 1
   /\ UNCHANGED <<db, up, conf, inq, rtq, wk, pl, boot, sx, nfail, ncrash, nskip, nclose>>
 
 \* reply of AddPending / AddFailed in the pre-state
 AStoreRes(a) == IF db[ad[a].t] = "absent" THEN "ok" ELSE "exists"
-AStore(a) ==
+\* rdy = t.Ready() as evaluated inside Add: AddPending when ready, AddFailed otherwise
+AStore(a, rdy) ==
   /\ ad[a].pc = "store" /\ up \in {"up", "closing", "closed"}
   /\ LET t == ad[a].t IN
      IF db[t] = "absent"
-     THEN /\ db' = [db EXCEPT ![t] = IF ad[a].ready THEN "pending" ELSE "failed"]
-          /\ ad' = [ad EXCEPT ![a].pc = IF ad[a].ready THEN "enq" ELSE "ret", ![a].res = "ok"]
-     ELSE /\ ad' = [ad EXCEPT ![a].pc = "ret", ![a].res = "ok"]      \* ErrTaskExists: no-op
+     THEN /\ db' = [db EXCEPT ![t] = IF rdy THEN "pending" ELSE "failed"]
+          /\ ad' = [ad EXCEPT ![a].pc = IF rdy THEN "enq" ELSE "ret", ![a].res = "ok", ![a].ready = rdy]
+     ELSE /\ ad' = [ad EXCEPT ![a].pc = "ret", ![a].res = "ok", ![a].ready = rdy]      \* ErrTaskExists: no-op
           /\ UNCHANGED db
   /\ UNCHANGED <<up, conf, inq, rtq, wk, pl, boot, sx, nfail, ncrash, nskip, nclose, nadd>>
 
@@ -257,7 +258,7 @@ Crash ==                                     \* the process dies: volatile state
 ----------------------------------------------------------------------------
 Next ==
   \/ BootGet \/ (\E t \in Tasks : BootMark(t)) \/ Started
-  \/ \E a \in Adders : (\E t \in Tasks, r \in BOOLEAN : AddCall(a, t, r)) \/ AStore(a) \/ AEnqueue(a) \/ AFull(a) \/ AOverflow(a) \/ ARet(a)
+  \/ \E a \in Adders : (\E t \in Tasks : AddCall(a, t)) \/ (\E r \in BOOLEAN : AStore(a, r)) \/ AEnqueue(a) \/ AFull(a) \/ AOverflow(a) \/ ARet(a)
   \/ \E w \in Workers : WDequeue(w) \/ WExecStart(w) \/ (\E ok \in BOOLEAN : WExecEnd(w, ok)) \/ WMarkFailed(w) \/ WRemove(w) \/ WExit(w)
   \/ PGet \/ (\E t \in Tasks : PSkip(t) \/ PMark(t)) \/ PEnqueue \/ PFull \/ POverflow \/ PDone \/ PExit
   \/ \E s \in Syncers : (\E t \in Tasks : SxCall(s, t)) \/ SxStart(s) \/ (\E ok \in BOOLEAN : SxEnd(s, ok)) \/ SxRet(s)
@@ -268,7 +269,7 @@ Spec == Init /\ [][Next]_vars
 \* the system keeps running: every goroutine that can take a step eventually does, the process is restarted after a
 \* crash or Close, the executor succeeds once its failure budget is spent
 BootStep      == BootGet \/ (\E t \in Tasks : BootMark(t)) \/ Started
-AdderStep(a)  == AStore(a) \/ AEnqueue(a) \/ AFull(a) \/ AOverflow(a) \/ ARet(a)
+AdderStep(a)  == (\E r \in BOOLEAN : AStore(a, r)) \/ AEnqueue(a) \/ AFull(a) \/ AOverflow(a) \/ ARet(a)
 WorkerStep(w) == WDequeue(w) \/ WExecStart(w) \/ WExecEnd(w, TRUE) \/ WMarkFailed(w) \/ WRemove(w) \/ WExit(w)
 PollStep      == PGet \/ (\E t \in Tasks : PMark(t)) \/ PEnqueue \/ PFull \/ POverflow \/ PDone \/ PExit
 Fairness == /\ WF_vars(BootStep) /\ WF_vars(PollStep) /\ WF_vars(Closed)
